@@ -78,6 +78,7 @@ class Engine:
         self.trail = []  # (taken, other_side_feasible)
         self.decided = {}
         self.rnd_cache = {}
+        self.uf_apps = {}  # id -> exact-semantics axiom of each mul/div UF application on this path
         self.vars = {}  # name -> z3 const, declaration order
         self.kinds = {}
         self.npc = 0
@@ -296,7 +297,10 @@ def _mul(a, b):
         # commutative normal form so that x*y and y*x are the same UF application
         if a.get_id() > b.get_id():
             a, b = b, a
-        return _MUL(_real(a), _real(b))
+        a, b = _real(a), _real(b)
+        r = _MUL(a, b)
+        ENGINE.uf_apps.setdefault(r.get_id(), r == a * b)
+        return r
     return a * b
 
 
@@ -316,7 +320,8 @@ class SymBool:
         return self
 
     def __repr__(self):
-        return f"SymBool({self.t})"
+        s = self.t.sexpr()
+        return f"SymBool({s if len(s) <= 160 else s[:160] + '...'})"
 
     def __and__(self, o):
         return SymBool(z3.And(self.t, o.t if isinstance(o, SymBool) else z3.BoolVal(bool(o))))
@@ -381,7 +386,9 @@ class SymNum(float):
         raise Unsupported("pickling a symbolic number")
 
     def __repr__(self):
-        return f"Sym({self.t})"
+        # never the python pretty-printer (seconds on big terms): C-level s-expression, truncated
+        s = self.t.sexpr()
+        return f"Sym({s if len(s) <= 160 else s[:160] + '...'})"
 
     __str__ = __repr__
 
@@ -464,7 +471,9 @@ class SymNum(float):
             ENGINE.note("symbolic denominators are assumed non-zero (division totality is C09's obligation)")
             ENGINE.assume(den != 0)
         if ENGINE.nl_uf:
-            return SymNum(_DIV(num, den))
+            r = _DIV(num, den)
+            ENGINE.uf_apps.setdefault(r.get_id(), r * den == num)
+            return SymNum(r)
         return SymNum(num / den)
 
     def __truediv__(self, o):
